@@ -748,7 +748,12 @@ Lemma redo_needs_consistency :
   ~ thresholds_consistent pmx (delivered script_redo).
 Proof.
   split; [exact pmx_pos|]. split; [exact script_redo_ok|].
-  split; [|split; [|split; [discriminate|exact script_redo_inconsistent]]].
-  - eapply proj1. apply filter_In. rewrite script_redo_acts. left. reflexivity.
-  - eapply proj1. apply filter_In. rewrite script_redo_acts. right. left. reflexivity.
+  pose proof script_redo_acts as E.
+  set (L := all_acts pmx (init pmx 5) script_redo) in *. clearbody L.
+  set (F := fun a => match a with AAttest _ _ _ _ => true | _ => false end) in *.
+  assert (M1 : In (AAttest 5 1 s_redo vx1) (filter F L)) by (rewrite E; left; reflexivity).
+  assert (M2 : In (AAttest 5 1 s_redo vx2) (filter F L)) by (rewrite E; right; left; reflexivity).
+  split; [exact (proj1 (proj1 (filter_In F _ L) M1))|].
+  split; [exact (proj1 (proj1 (filter_In F _ L) M2))|].
+  split; [discriminate|exact script_redo_inconsistent].
 Qed.
